@@ -262,6 +262,7 @@ func TestVerif_C10_e2e(t *testing.T) {
 		x.kept = "K-"
 		_, panicked := verifh.Safely(func() {
 			_, rq := x.e2eBuild(o, id, d)
+			defer x.stopObservers()
 			defer x.cancel()
 			if tc.useSend {
 				resp, _ = rq.Send(tc.method, tc.url)
